@@ -14,6 +14,8 @@ def jobs(rng, thorough):
     out = []
     for _ in range(n):
         out.append((gen.conn_traffic(rng), rng.randrange(10 ** 9), rng.choice([0, 0, 3, 6])))
+    for _ in range(n // 40):
+        out.append((gen.conn_flood(rng), rng.randrange(10 ** 9), 0))       # more than a hundred commands queued at once
     for _ in range(n // 4):
         # callers whose own SYS:MODELNAME queries mix with the library's keep-alive probes (slow or sleeping receivers)
         out.append((gen.conn_keepalive(rng), rng.randrange(10 ** 9), rng.choice([0, 0, 3])))
